@@ -390,6 +390,74 @@ func harnesses(r *fw.Run) []fw.HarnessSpec {
 		})
 	})
 
+	// state-inits whose code is a wallet the library knows elsewhere (wallet.GetVerByCodeHash) but that TON Connect does
+	// not support, and state-inits with arbitrary code: the key cannot be taken from them. ParseStateInit must say so,
+	// and a proof that needs the key from such a state-init is rejected - also one whose "signature" is the degenerate
+	// pair that verifies under an all-zero key
+	add("unsupported-wallet-state-inits", 0, func(c *enum.Ctx) {
+		kinds := []wallet.Version{wallet.HighLoadV2R2, wallet.HighLoadV2R1, wallet.HighLoadV2, wallet.HighLoadV1R2, wallet.HighLoadV1R1, wallet.V3R2Lockup}
+		ver := kinds[c.ChooseFree(len(kinds))]
+		tsK := c.ChooseFree(16)
+		c.Case([]byte(fmt.Sprintf("unsupported/%d/%d", ver, tsK)), true)
+		c.Label("state-init with the code of %s, timestamp +%d", verName(ver), tsK)
+		c.Try("panic:unsupported-state-init", func() {
+			vtime.Reset(now)
+			code := wallet.GetCodeByVer(ver)
+			if code == nil {
+				c.Skip()
+				return
+			}
+			data := tb.NewCell()
+			_ = data.WriteUint(0, 32)
+			_ = data.WriteUint(uint64(wallet.DefaultSubWallet), 32)
+			_ = data.WriteBytes(keys[0].Public().(ed25519.PublicKey))
+			_ = data.WriteBit(false)
+			var si tlb.StateInit
+			si.Code.Exists = true
+			si.Code.Value.Value = *code
+			si.Data.Exists = true
+			si.Data.Value.Value = *data
+			b64 := stateInitB64(c, si)
+			if c.Failed() {
+				return
+			}
+			if key, err := tonconnect.ParseStateInit(b64); err == nil {
+				c.Fail("unsupported-state-init-parsed:"+verName(ver), "ParseStateInit of a state-init with the code of %s returns key %x without an error", verName(ver), key)
+			}
+			cl, err := tb.DeserializeBocBase64(b64)
+			if err != nil {
+				c.Skip()
+				return
+			}
+			h, _ := cl[0].Hash256()
+			addr := ton.AccountID{Workchain: 0, Address: h}
+			ex := &executor{mode: 2, keys: map[ton.AccountID]ed25519.PublicKey{}}
+			srv, err := tonconnect.NewTonConnect(ex, "secret-one")
+			if err != nil {
+				c.Fail("setup", "%v", err)
+				return
+			}
+			payload, err := srv.GeneratePayload()
+			if err != nil {
+				c.Fail("GeneratePayload", "%v", err)
+				return
+			}
+			ts := now.Unix() + int64(tsK)
+			for k, sig := range []string{
+				refSign(keys[0], addr.Workchain, addr.Address, "example.com", ts, payload),
+				base64.StdEncoding.EncodeToString(append([]byte{1}, make([]byte, 63)...)), // R = the neutral point, S = 0
+				base64.StdEncoding.EncodeToString(make([]byte, 64)),
+			} {
+				p := tonconnect.Proof{Address: addr.ToRaw()}
+				p.Proof.Timestamp, p.Proof.Domain, p.Proof.Payload, p.Proof.StateInit, p.Proof.Signature = ts, "example.com", payload, b64, sig
+				ok, gotKey, err := srv.CheckProof(context.Background(), &p, srv.CheckPayload, tonconnect.StaticDomain("example.com"))
+				if ok || err == nil {
+					c.Fail(fmt.Sprintf("unsupported-wallet-proof-accepted:%s:sig=%d", verName(ver), k), "a proof whose key would have to come from a %s state-init was accepted (key %x)", verName(ver), gotKey)
+				}
+			}
+		})
+	})
+
 	add("payloads", 0, func(c *enum.Ctx) {
 		k := c.ChooseFree(70)
 		c.Case([]byte(fmt.Sprintf("payload/%d", k)), true)
@@ -435,4 +503,14 @@ func harnesses(r *fw.Run) []fw.HarnessSpec {
 		})
 	})
 	return hs
+}
+
+// verName names a wallet version also where Version.ToString panics (it does for versions without a text form).
+func verName(v wallet.Version) (name string) {
+	defer func() {
+		if recover() != nil {
+			name = fmt.Sprintf("version#%d", int(v))
+		}
+	}()
+	return v.ToString()
 }
